@@ -219,12 +219,39 @@ def _o_iter(case):
     items = case["items"]
     data = streams.join(items)
     qoe = case["qoe"]
+    sock = None
     if case["stream"] == "scripted":
         stream = ScriptedStream(data, case["script"], slack=32)
+    elif case["stream"] == "chunked-socket":
+        # the same bytes as an HTTP chunked body (optionally compressed per chunk, codings may be OR'd) over a socket
+        from pv.checks import c12
+        from pv.doubles import ScriptedSocket
+
+        step = max(1, case["chunk"])
+        cc = {"chunks": [data[i : i + step].hex() for i in range(0, len(data), step)], "enc": case["enc"], "hexcase": [0], "terminator": True}
+        encoded, _ = c12.encode(cc)
+        sock = ScriptedSocket(streams.split(encoded, [c for c in case["cuts"] if 0 < c < len(encoded)]) + ["close"])
+        sock.budget = 6 * len(encoded) + 256
+        stream = sock
     else:
         stream = BudgetBytesIO(data)
     calls = []
-    rdr = RTCMReader(stream, validate=case["validate"], quitonerror=qoe, parsed=case["parsed"], errorhandler=(lambda e: calls.append(e)) if case["handler"] else None)
+    try:
+        rdr = RTCMReader(stream, validate=case["validate"], quitonerror=qoe, parsed=case["parsed"], errorhandler=(lambda e: calls.append(e)) if case["handler"] else None, **({"encoding": __import__("pv.checks.c12", fromlist=["ENC"]).ENC[case["enc"]], "bufsize": 4096} if sock is not None else {}))
+        return _iterate(case, rdr, stream, data, qoe, sock)
+    except (Fail, HardStop):
+        raise
+    except lib_errors() as e:
+        raise Fail(f"constructor-raised:{type(e).__name__}", f"RTCMReader(...) raised {type(e).__name__}: {e}") from e
+    except Exception as e:  # pylint: disable=broad-except
+        raise Fail(f"foreign-exception:{type(e).__name__}@{lib_frame(e)}", f"reader over {case['stream']} (encoding {case.get('enc')}): {type(e).__name__}: {e}") from e
+    finally:
+        if sock is not None:
+            sock.close()
+
+
+def _iterate(case, rdr, stream, data, qoe, sock):
+    items = case["items"]
     n = 0
     raised = 0
     it = iter(rdr)
@@ -256,8 +283,13 @@ def _o_iter(case):
 @st.composite
 def s_iter(draw, tier):
     items = streams.flatten(draw(st.lists(streams.adversarial_items("small"), min_size=1, max_size=10)))
-    kind = draw(st.sampled_from(["scripted", "scripted", "bytesio"]))
+    kind = draw(st.sampled_from(["scripted", "scripted", "bytesio", "chunked-socket"]))
+    extra = {}
+    if kind == "chunked-socket":
+        n = sum(len(i["b"]) // 2 for i in items)
+        extra = {"enc": draw(st.sampled_from(["none", "gzip", "compress", "deflate", "gzip+deflate", "gzip+compress", "compress+deflate", "gzip+compress+deflate"])), "chunk": draw(st.sampled_from([7, 64, 500, 5000])), "cuts": draw(streams.partitions(max(2, 2 * n)))}
     return {
+        **extra,
         "items": items,
         "stream": kind,
         "script": draw(streams.read_scripts(48)) if kind == "scripted" else [],
